@@ -147,6 +147,28 @@ Definition scheme_eqb (a b : scheme) : bool :=
   | _, _ => false
   end.
 
+(* ---- lib.rs: write_to / to_bstring ---------------------------------------------------------- *)
+
+Definition is_file_or_ssh (s : scheme) : bool :=
+  match s with File | Ssh => true | _ => false end.
+Definition is_ssh (s : scheme) : bool := match s with Ssh => true | _ => false end.
+
+Definition to_bstring (u : url) : outcome bytes err :=
+  let pre := if u_alt u && is_file_or_ssh (u_scheme u) then []
+             else scheme_str (u_scheme u) ++ bs "://" in
+  let rest := (match u_port u with Some p => COLON :: N_to_dec p | None => [] end)
+              ++ (if u_alt u && is_ssh (u_scheme u) then [COLON] else [])
+              ++ u_path u in
+  match u_user u, u_host u with
+  | Some user, Some host =>
+      Ok (pre ++ user
+              ++ (match u_password u with Some pw => COLON :: pw | None => [] end)
+              ++ AT :: host ++ rest)
+  | None, Some host => Ok (pre ++ host ++ rest)
+  | None, None => Ok (pre ++ rest)
+  | Some _, None => Panic       (* unreachable!("BUG: should not be possible to have a user but no host") *)
+  end.
+
 (* ---- parse.rs ------------------------------------------------------------------------------ *)
 
 Inductive input_scheme := IUrl (protocol_end : nat) | IScp (colon : nat) | ILocal.
@@ -196,7 +218,16 @@ Definition parse_url (crate : crate_fn) (input : bytes) (pe : nat) : outcome url
               && (match c_path c with [] => true | _ => false end)
            then Err MissingPath
            else if c_cab c then Err Relative
-           else Ok (mkUrl sch (url_user c) (c_pass c) (c_host c) false (c_port c) (c_path c))
+           else
+             let out := mkUrl sch (url_user c) (c_pass c) (c_host c) false (c_port c) (c_path c) in
+             (* the limit applies to the serialized form too (fix 86801e7af) *)
+             match to_bstring out with
+             | Ok ser =>
+                 if too_long ser (length (scheme_str sch)) then Err TooLong else Ok out
+             | Err e => Err e
+             | Panic => Panic
+             | OutOfFuel => OutOfFuel
+             end
        end.
 
 (* `input.split_at(colon)` on a &str panics off a char boundary; colon indexes an ASCII ':' of a
@@ -248,28 +279,6 @@ Definition parse (crate : crate_fn) (input : bytes) : outcome url err :=
       if eq_ignore_ascii_case (firstn pe input) (bs "file") then parse_file_url input pe
       else parse_url crate input pe
   | IScp colon => parse_scp crate input colon
-  end.
-
-(* ---- lib.rs: write_to / to_bstring ---------------------------------------------------------- *)
-
-Definition is_file_or_ssh (s : scheme) : bool :=
-  match s with File | Ssh => true | _ => false end.
-Definition is_ssh (s : scheme) : bool := match s with Ssh => true | _ => false end.
-
-Definition to_bstring (u : url) : outcome bytes err :=
-  let pre := if u_alt u && is_file_or_ssh (u_scheme u) then []
-             else scheme_str (u_scheme u) ++ bs "://" in
-  let rest := (match u_port u with Some p => COLON :: N_to_dec p | None => [] end)
-              ++ (if u_alt u && is_ssh (u_scheme u) then [COLON] else [])
-              ++ u_path u in
-  match u_user u, u_host u with
-  | Some user, Some host =>
-      Ok (pre ++ user
-              ++ (match u_password u with Some pw => COLON :: pw | None => [] end)
-              ++ AT :: host ++ rest)
-  | None, Some host => Ok (pre ++ host ++ rest)
-  | None, None => Ok (pre ++ rest)
-  | Some _, None => Panic       (* unreachable!("BUG: should not be possible to have a user but no host") *)
   end.
 
 (* ---- the property as a boolean, for Run and for the theorems -------------------------------- *)
